@@ -31,11 +31,11 @@ structure MemCore (m : HMem) : Prop where
 def LeftOK (m : HMem) (P : Nat → Prop) : Prop :=
   ∀ e, P e → e < m.fresh → m.own.get e = none → m.idx.get e = -1
 
-/-- The full invariant. -/
-structure MemOK (cmp : Int → Int → Bool) (m : HMem) : Prop where
+/-- The full invariant; `c h` = the comparator of heap `h` (`h.cmp`). -/
+structure MemOK (c : Nat → Int → Int → Bool) (m : HMem) : Prop where
   core : MemCore m
   left : LeftOK m (fun _ => True)
-  ord : ∀ h, h < 2 → HeapOrd cmp m h
+  ord : ∀ h, h < 2 → HeapOrd (c h) m h
 
 /-! ### heap order in terms of positions -/
 
@@ -180,9 +180,9 @@ theorem sift_ord {cmp} {m3 m' : HMem} {h : Nat} {s' : List Int}
   exact H
 
 /-- All of `MemOK` after a sift that ended in a heap-ordered array. -/
-theorem sift_memOK {cmp} {m3 m' : HMem} {h : Nat} {s' : List Int} (hh : h < 2)
-    (hc : MemCore m3) (hl : LeftOK m3 (fun _ => True)) (ho : HeapOrd cmp m3 (oth h))
-    (R : SiftRel m3 h m' s') (H : Heap (cmpId cmp m3.val) s') : MemOK cmp m' := by
+theorem sift_memOK {c : Nat → Int → Int → Bool} {m3 m' : HMem} {h : Nat} {s' : List Int} (hh : h < 2)
+    (hc : MemCore m3) (hl : LeftOK m3 (fun _ => True)) (ho : HeapOrd (c (oth h)) m3 (oth h))
+    (R : SiftRel m3 h m' s') (H : Heap (cmpId (c h) m3.val) s') : MemOK c m' := by
   refine ⟨sift_core hh hc R, sift_left hh hc hl R, ?_⟩
   intro h' hh'
   rcases eq_or_oth hh hh' with rfl | rfl
